@@ -1349,6 +1349,28 @@ impl SecureMemoryPool {
         self.active_allocations.len()
     }
 
+    /// Verification hook: a copy of the chunk record behind a guard (same address, size,
+    /// generation, canary).  The guard keeps owning the chunk.
+    #[cfg(zipora_verif)]
+    pub fn verif_chunk_copy(ptr: &SecurePooledPtr) -> Option<SecureChunk> {
+        ptr.chunk.as_ref().map(|c| SecureChunk {
+            ptr: c.ptr,
+            size: c.size,
+            generation: c.generation,
+            pool_id: c.pool_id,
+            canary: c.canary,
+            align: c.align,
+        })
+    }
+
+    /// Verification hook: `deallocate_internal` on a chunk record.  The RAII guard makes a
+    /// second deallocation of the same chunk unreachable for clients; this entry point lets a
+    /// harness exercise the double-free detection.
+    #[cfg(zipora_verif)]
+    pub fn verif_deallocate(&self, chunk: SecureChunk) -> Result<()> {
+        self.deallocate_internal(chunk)
+    }
+
     /// Validate pool integrity
     pub fn validate(&self) -> Result<()> {
         // Check active allocations for corruption
